@@ -28,12 +28,20 @@ SHAPES = {
     "down": ([10.0, 5], [3.0, 4]),
     "fixed3": ([1.3, 3], [1.8, 3]),
     "up2": ([1.5, 3], [10.0, 5]),
+    # backward evolution inside one patch: no matching at all, hence no downward matching
+    "fixed-down": ([4.0, 4], [3.0, 4]),
 }
 NON_ITERATING = ["truncated", "ordered-truncated", "decompose-exact", "decompose-expanded"]
 NON_PERTURBATIVE = ["iterate-exact", "iterate-expanded", "truncated", "ordered-truncated", "decompose-exact", "decompose-expanded"]
+# couplings: "exact" ODE solution for *-exact methods, expanded formulas for all the others: the em-running flag selects a
+# different function in each of the two families
+EM_METHODS = ["iterate-exact", "truncated", "iterate-expanded"]
+# at LO the documented solution is the exact one for every method: nothing iterates, nothing is expanded
+LO_ITERATIONS = ["iterate-exact", "iterate-expanded", "perturbative-exact", "perturbative-expanded"]
+LO_MAX_ORDER = ["perturbative-exact", "perturbative-expanded"]
 SETTINGS = {
     "iterations": ("iterations", [1, 7, 30]),
-    "max_order": ("max_order", [[10, 0], [3, 0], [1, 0]]),
+    "max_order": ("max_order", [[10, 0], [3, 0], [1, 0], [10, 5]]),
     "inversion": ("inversion", [None, "exact", "expanded"]),
     "n3lo_var": ("n3lo_ad_variation", [[0, 0, 0, 0, 0, 0, 0], [1, 2, 3, 1, 2, 3, 1]]),
     "fhmruvv": ("use_fhmruvv", [True, False]),
@@ -64,7 +72,10 @@ def evaluate(case):
     res = Result()
     key, values = SETTINGS[case["setting"]]
     outs = []
-    where = f"{ {k: case[k] for k in ('qcd', 'shape', 'method', 'setting', 'seam')} }"
+    errs = []  # S3 only: the error tensors
+    order = case.get("extra", {}).get("order", [case["qcd"], 0])
+    qed = f",qed={order[1]}" if order[1] else ""
+    where = f"{ {k: case[k] for k in ('qcd', 'shape', 'method', 'setting', 'seam')} }" + (f" extra={case['extra']}" if case.get("extra") else "")
     for v in values:
         cfg = _cfg(case, v)
         try:
@@ -74,14 +85,16 @@ def evaluate(case):
             else:
                 ops = cards.solve_ops(dict(cfg, xgrid=[0.2, 0.6, 1.0], degree=1), tag="c55")
                 outs.append({ep: o for ep, (o, e) in ops.items()})
+                errs.append({ep: e for ep, (o, e) in ops.items()})
         except (NotImplementedError, ValueError) as e:
             outs.append(("refused", str(e)[:60]))
+            errs.append(None)
         except Exception as e:  # noqa
             res.fail(f"solve/crash/{type(e).__name__}/{case['setting']}", f"{where} value={v}: {type(e).__name__}: {str(e)[:200]}")
             return res
     ref = outs[0]
     worst = 0.0
-    for v, o in zip(values[1:], outs[1:]):
+    for iv, (v, o) in enumerate(zip(values[1:], outs[1:]), start=1):
         if isinstance(ref, tuple) or isinstance(o, tuple):
             if isinstance(ref, tuple) != isinstance(o, tuple):
                 res.fail(f"solve/{case['setting']}/refusal-depends-on-setting/{case['method']}", f"{where}: value {values[0]} -> {ref if isinstance(ref, tuple) else 'ok'}, value {v} -> {o if isinstance(o, tuple) else 'ok'}")
@@ -94,9 +107,16 @@ def evaluate(case):
                 d = float(np.abs(ref[ep] - o[ep]).max())
                 worst = max(worst, d)
                 res.fail(
-                    f"solve/{case['setting']}/qcd={case['qcd']},method={case['method']},shape={case['shape'].rstrip('23')}",
+                    f"solve/{case['setting']}/qcd={case['qcd']}{qed},method={case['method']},shape={case['shape'].rstrip('23')}",
                     f"{where}: operator at {ep} changes with {key}: {values[0]} vs {v} (max abs diff {d:.3e})",
                 )
+            if errs and errs[0] is not None and errs[iv] is not None:
+                e0, e1 = errs[0][ep], errs[iv][ep]
+                if (e0 is None) != (e1 is None) or (e0 is not None and e0.tobytes() != e1.tobytes()):
+                    res.fail(
+                        f"solve/{case['setting']}/error-tensor/qcd={case['qcd']}{qed},method={case['method']},shape={case['shape'].rstrip('23')}",
+                        f"{where}: error tensor at {ep} changes with {key}: {values[0]} vs {v}",
+                    )
     res.info = {"max_diff": worst}
     if isinstance(ref, tuple):
         res.outcome = "refused"
@@ -125,11 +145,41 @@ def run(ctx):
                 for m in ("truncated", "iterate-exact"):
                     cases.append(dict(seam="s2", qcd=qcd, shape=shape, method=m, setting="n3lo_var"))
                     cases.append(dict(seam="s2", qcd=qcd, shape=shape, method=m, setting="fhmruvv"))
-            cases.append(dict(seam="s2", qcd=qcd, shape=shape, method="iterate-exact", setting="em_running"))
+            for m in EM_METHODS:
+                cases.append(dict(seam="s2", qcd=qcd, shape=shape, method=m, setting="em_running"))
+            if qcd == 1:
+                for m in LO_ITERATIONS:
+                    cases.append(dict(seam="s2", qcd=qcd, shape=shape, method=m, setting="iterations"))
+                for m in LO_MAX_ORDER:
+                    cases.append(dict(seam="s2", qcd=qcd, shape=shape, method=m, setting="max_order"))
+        # backward evolution without any matching: the inversion method has nothing to act on
+        for m in ("truncated", "iterate-exact"):
+            cases.append(dict(seam="s2", qcd=qcd, shape="fixed-down", method=m, setting="inversion"))
+    # QED on (only iterate-exact exists): expansion order, inversion without downward matching, N3LO choices below N3LO
+    for o in [[1, 1], [2, 1]] + ([[3, 1], [2, 2]] if ctx.thorough() else []):
+        for shape in ("fixed", "up") + (("down",) if ctx.thorough() else ()):
+            for setting in ("max_order", "inversion", "n3lo_var", "fhmruvv"):
+                if setting == "inversion" and shape == "down":
+                    continue
+                cases.append(dict(seam="s2", qcd=o[0], shape=shape, method="iterate-exact", setting=setting, extra=dict(order=o)))
+    # scale variations on
+    for setting, m, sv, xif, shape in (
+        ("iterations", "truncated", "expanded", 2.0, "up"),
+        ("iterations", "decompose-exact", "exponentiated", 0.5, "down"),
+        ("max_order", "iterate-exact", "expanded", 0.5, "down"),
+        ("inversion", "truncated", "exponentiated", 2.0, "up"),
+        ("em_running", "truncated", "exponentiated", 2.0, "up"),
+        ("n3lo_var", "iterate-exact", "expanded", 2.0, "fixed"),
+    ):
+        cases.append(dict(seam="s2", qcd=2, shape=shape, method=m, setting=setting, extra=dict(sv=sv, xif=xif)))
+    if ctx.thorough():
+        # N3LO matching below N3LO evolution: the N3LO choices concern the anomalous dimensions only
+        for setting in ("n3lo_var", "fhmruvv"):
+            cases.append(dict(seam="s2", qcd=3, shape="up", method="truncated", setting=setting, extra=dict(matching_order=[3, 0])))
     # polarised / time-like spot product
     for kind in (dict(polarized=True), dict(time_like=True)):
         for qcd in (1, 2, 3):
-            for setting, m in (("iterations", "truncated"), ("max_order", "iterate-exact"), ("inversion", "truncated"), ("n3lo_var", "truncated"), ("em_running", "iterate-exact")):
+            for setting, m in (("iterations", "truncated"), ("max_order", "iterate-exact"), ("inversion", "truncated"), ("n3lo_var", "truncated"), ("em_running", "iterate-exact"), ("em_running", "truncated")):
                 cases.append(dict(seam="s2", qcd=qcd, shape="up", method=m, setting=setting, extra=kind))
     # un-stubbed
     for qcd, shape, m, setting in (
@@ -139,13 +189,23 @@ def run(ctx):
         (2, "up", "truncated", "inversion"),
         (2, "fixed", "truncated", "n3lo_var"),
         (1, "fixed", "iterate-exact", "em_running"),
+        (2, "up", "truncated", "em_running"),
     ):
         cases.append(dict(seam="s3", qcd=qcd, shape=shape, method=m, setting=setting))
     ctx.run_cases(cases, evaluate, chunksize=1)
     ctx.rule = (
         f"QCD order 1-4 x path shapes {shapes} x (iterations in 1/7/30 for the 4 non-iterating methods; expansion order in "
-        "(10,0)/(3,0)/(1,0) for the 6 non-perturbative methods; inversion None/exact/expanded on fixed and upward paths; N3LO variation "
-        "and parametrisation below N3LO; em-running flag without QED) + polarised/time-like spot product + 6 un-stubbed solves; "
+        "(10,0)/(3,0)/(1,0)/(10,5) for the 6 non-perturbative methods; inversion None/exact/expanded on fixed and upward paths; N3LO variation "
+        "and parametrisation below N3LO; em-running flag without QED for iterate-exact (exact couplings) and truncated/iterate-expanded "
+        "(expanded couplings)); at LO also iterations for the iterate-*/perturbative-* and expansion order for the perturbative-* methods; "
+        "inversion on a backward path without matching; QED on (iterate-exact, orders "
+        + ("(1,1) (2,1) (3,1) (2,2)" if ctx.thorough() else "(1,1) (2,1)")
+        + ": expansion order, inversion on fixed/upward paths, N3LO choices); 6 spot cases with scale variations on"
+        + ("; N3LO matching under NNLO evolution" if ctx.thorough() else "")
+        + " + polarised/time-like spot product + 7 un-stubbed solves (operators and error tensors); "
         "a case = one configuration with all values of one setting; non-trivial = solved"
     )
-    ctx.assumptions += ["which settings are irrelevant where is taken from the property text (documentation of the operator card)"]
+    ctx.assumptions += [
+        "which settings are irrelevant where is taken from the property text (documentation of the operator card)",
+        "LO: every method is read as non-iterating and non-perturbative (docs: the LO solution is the exact one; methods are defined from NLO on)",
+    ]
